@@ -79,6 +79,7 @@ TStep ==
         /\ UNCHANGED <<ip, buf, out>> /\ SameShared /\ Finish("")
      \/ /\ e.ev = "finish" /\ UNCHANGED vars /\ NoLru
         /\ Finish(IF e.status # "ok" THEN "NoThreadBlocked"
+                  ELSE IF e.mutex # "free" THEN "MutexDiscipline:held-at-end"
                   ELSE IF \E x \in Threads : ~Done(x) THEN "finish-before-all-returned"
                   ELSE IF Cap > 0 /\ (e.coll > Bound \/ e.uric > Bound) THEN "inv:BoundUnderConcurrency:final"
                   ELSE "")
